@@ -403,6 +403,8 @@ class SymExec:
         # evaluate the body once with accumulators replaced by placeholders
         ph = {}
         for k, op in accs.items():
+            if not k.isidentifier() and s.target.id in {n.id for n in ast.walk(ast.parse(k, mode='eval')) if isinstance(n, ast.Name)}:
+                raise Unsupported('accumulator %s depends on the loop variable at line %s' % (k, s.lineno))
             ph[k] = sp.Symbol('__acc_%s_%d' % (k, s.lineno), positive=True)
             benv[k] = ph[k]
         after = self._block(s.body, benv, [], [])
@@ -429,11 +431,12 @@ class SymExec:
     def _acc_targets(self, body):
         accs = {}
         for st in body:
-            if isinstance(st, ast.AugAssign) and isinstance(st.target, ast.Name):
+            if isinstance(st, ast.AugAssign) and isinstance(st.target, (ast.Name, ast.Subscript, ast.Attribute)):
                 op = '*' if isinstance(st.op, (ast.Mult, ast.Div)) else '+' if isinstance(st.op, (ast.Add, ast.Sub)) else None
-                if op is None or accs.get(st.target.id, op) != op:
+                key = st.target.id if isinstance(st.target, ast.Name) else src(st.target)
+                if op is None or accs.get(key, op) != op:
                     return None
-                accs[st.target.id] = op
+                accs[key] = op
             elif isinstance(st, ast.For):
                 sub = self._acc_targets(st.body)
                 if sub is None:
@@ -444,15 +447,17 @@ class SymExec:
                     accs[k] = op
             elif isinstance(st, (ast.AnnAssign, ast.Pass)):
                 continue
-            elif isinstance(st, ast.Assign) and len(st.targets) == 1 and isinstance(st.targets[0], ast.Name):
-                t = st.targets[0].id
+            elif isinstance(st, ast.Assign) and len(st.targets) == 1 and isinstance(st.targets[0], (ast.Name, ast.Subscript, ast.Attribute)):
+                t = st.targets[0].id if isinstance(st.targets[0], ast.Name) else src(st.targets[0])
                 v = st.value
-                if isinstance(v, ast.BinOp) and isinstance(v.left, ast.Name) and v.left.id == t and \
+                if isinstance(v, ast.BinOp) and src(v.left) == t and \
                         isinstance(v.op, (ast.Mult, ast.Div, ast.Add, ast.Sub)):
                     op = '*' if isinstance(v.op, (ast.Mult, ast.Div)) else '+'
-                elif isinstance(v, ast.BinOp) and isinstance(v.right, ast.Name) and v.right.id == t and \
+                elif isinstance(v, ast.BinOp) and src(v.right) == t and \
                         isinstance(v.op, (ast.Mult, ast.Add)):
                     op = '*' if isinstance(v.op, ast.Mult) else '+'
+                elif not isinstance(st.targets[0], ast.Name):
+                    return None
                 elif t in {n.id for n in ast.walk(v) if isinstance(n, ast.Name)}:
                     return None
                 else:
